@@ -91,6 +91,13 @@ func Eq(a, b *T) *T {
 	if a == b {
 		return tTrue
 	}
+	// a ranged variable can never equal a constant outside its range (bytes vs separators, digits vs letters ...)
+	if a.op == "var" && b.isC() && a.sort == 'I' && ((a.lo != nil && b.n.Cmp(a.lo) < 0) || (a.hi != nil && b.n.Cmp(a.hi) > 0)) {
+		return tFalse
+	}
+	if b.op == "var" && a.isC() && b.sort == 'I' && ((b.lo != nil && a.n.Cmp(b.lo) < 0) || (b.hi != nil && a.n.Cmp(b.hi) > 0)) {
+		return tFalse
+	}
 	if a.isC() && b.isC() {
 		if a.sort == 'B' {
 			return B(a.b == b.b)
